@@ -398,6 +398,10 @@ class ErrorStack(deque):
             if mxdir in frame.filename and frame.name == "on_eval_formula":
                 self.on_eval_flag = True
             elif not mxdir in frame.filename and self.on_eval_flag:
+                if not rolledback:
+                    # The rest are frames of an earlier evaluation, kept in
+                    # the traceback of an exception that was raised again
+                    break
                 node = rolledback.pop()
                 self.append(
                     (node, frame.lineno, tb.tb_frame.f_locals.copy())
